@@ -39,7 +39,7 @@ def qinv(s, q):
     return And(H.HEAP(v.arrs[0], v.arrs[1], v.len, P(s)), v.len >= 0,
                z3.ForAll([i], z3.Implies(z3.And(i >= 0, i < v.len),
                                          z3.And(z3.Select(v.arrs[0], i) == z3.Select(TSA(s), z3.Select(v.arrs[1], i)),
-                                                z3.Select(v.arrs[1], i) != 0)),
+                                                z3.Select(v.arrs[1], i) != 0, s.alloc_ref(z3.Select(v.arrs[1], i)))),
                          patterns=[z3.Select(v.arrs[1], i)]))
 
 
@@ -50,7 +50,7 @@ def lt_ev(s, e1, e2):
 
 def bag_same_except(s_old, q_old, s_new, q_new, e, delta):
     x = z3.Const("bx!q", RefSort)
-    return z3.ForAll([x], bag(q_new, x) == bag(q_old, x) + z3.If(x == e, delta, 0), patterns=[bag(q_new, x)])
+    return z3.ForAll([x], bag(q_new, x) == bag(q_old, x) + z3.If(x == e, delta, 0), patterns=[bag(q_new, x), bag(q_old, x)])
 
 
 # ---------------------------------------------------------------------------- events
@@ -143,7 +143,7 @@ def _gce_post(old, new, ret):
         ("qinv", qinv(new, new.self)),
         ("timestep", new.self._timestep == t),
         ("bag_split", z3.ForAll([x], H.cnt(ret.v, x) + bag(new.self, x) == bag(old.self, x),
-                                patterns=[bag(new.self, x)])),
+                                patterns=[bag(new.self, x), H.cnt(ret.v, x), bag(old.self, x)])),
         ("returned_are_due", _all_seq(ret, lambda e: z3.Select(TSA(old), e) <= t)),
         ("remaining_are_later", _all_q(new.self, lambda e: z3.Select(TSA(old), e) > t)),
         ("sorted_by_time_then_precedence", _sorted(old, ret)),
